@@ -67,7 +67,7 @@ def same_curve(a, b):
     return len(ka) == len(kb) and all(rel_close(x, y, 1e-12) and rel_close(dict.__getitem__(a, x), dict.__getitem__(b, y), 1e-12) for x, y in zip(ka, kb))
 
 
-def share_flow_list(pl):
+def share_flow_list(pl, rng=None, runout=False):
     """the documented workbook format has ONE flow column for the head and the power curve: re-key the power curve on the head curve's flows"""
     from DHLLDV.PipeObj import Pipe, Pipeline
     from DHLLDV.DHLLDV_Utils import interpDict
@@ -78,7 +78,11 @@ def share_flow_list(pl):
         else:
             qs = sorted(s.design_QH_curve.keys())
             ps = [dict.__getitem__(s.design_QP_curve, k) for k in sorted(s.design_QP_curve.keys())]
-            secs.append(G.clone_pump(s, design_QP_curve=interpDict(dict(zip(qs, ps)))))
+            hs = [dict.__getitem__(s.design_QH_curve, k) for k in qs]
+            if runout and rng is not None and rng.random() < 0.5:
+                # a curve tabulated all the way to run-out: last point with head exactly 0 (and the power it takes there)
+                qs, hs, ps = qs + [qs[-1] * 1.2], hs + [0.0], ps + [ps[-1] * 1.05]
+            secs.append(G.clone_pump(s, design_QH_curve=interpDict(dict(zip(qs, hs))), design_QP_curve=interpDict(dict(zip(qs, ps)))))
     return Pipeline(name=pl.name, pipe_list=secs, slurry=pl.slurry)
 
 
@@ -184,7 +188,7 @@ def monitor(ctx, extended=False):
                     twin = G.clone_pump(pumps[0])
                 secs.insert(len(secs) - 1, twin)
                 pl = Pipeline(name=pl.name, pipe_list=secs, slurry=pl.slurry)
-            pl = share_flow_list(pl)
+            pl = share_flow_list(pl, ctx.rng, runout=True)
             desc = G.describe(pl)
             ctx.count('evaluations')
             try:
